@@ -8,7 +8,11 @@ from manifest_text import TEXT, NOT_APPLICABLE, HOOK_COMMITS, ALL, _pending
 NOT_APPLICABLE = NOT_APPLICABLE + [_pending(p) for p in ALL if p not in PROPS and p not in [x['property_id'] for x in NOT_APPLICABLE]]
 checks = []
 for pid in sorted(PROPS):
-    t = TEXT[pid]
+    t = dict(TEXT[pid])
+    if 'TestE2E' in PROPS[pid]['tests']:
+        t['level'] = t['level'] + (' Also observed end to end on the real kernel: the unmodified psa-dhcpd and psa-dhcpc binaries (real AF_PACKET sockets, netlink, main functions) over a veth pair '
+                                   'in a private network namespace, every frame captured with its link-layer header, interface configuration, routes and open sockets read from the kernel.')
+        t['note'] = t['note'] + ' End-to-end run: both veth ends share one network stack (arp_ignore=1); skipped with a note in the evidence where network namespaces are unavailable.'
     checks.append(dict(
         property_id=pid,
         quick_cmd='python3 tools/check.py %s quick' % pid,
